@@ -16,7 +16,6 @@ B. handler mapping histories: set/del/update/pop/popitem/setdefault/clear/copy/|
 
 import copy as copymod
 import itertools
-import os
 
 import falcon
 import falcon.asgi
@@ -468,6 +467,25 @@ class FastStamp(Stamp):
         self._deserialize_sync = lambda data: tag
 
 
+class ReKey(str):
+    """A str key that runs a callback whenever the mapping hashes it, i.e. INSIDE a mutating operation
+    (single-threaded re-entrancy): used to resolve content types while a set/del/update/pop is in progress."""
+
+    hook = None
+
+    def __hash__(self):
+        cb = ReKey.hook
+        if cb is not None:
+            ReKey.hook = None          # no recursion
+            try:
+                cb()
+            finally:
+                ReKey.hook = cb
+        return str.__hash__(self)
+
+    __eq__ = str.__eq__
+
+
 def tag_of(h):
     if h is M.NOT_FOUND or h is None:
         return h
@@ -623,15 +641,33 @@ class History:
         obj, model = live.obj, live.model
         real = want = None
         new_live = None
+        # trailing 're': the real mapping gets ReKey keys and every probe is resolved each time the
+        # mapping hashes one of them, i.e. in the middle of the operation
+        re_entrant = op[-1] == 're'
+        rk = ReKey if re_entrant else str
+
+        def resolve_inside():
+            for ct in self.probes:
+                rec.count('res.reentrant')
+                try:
+                    obj._resolve(ct, self.default)
+                except falcon.HTTPUnsupportedMediaType:
+                    pass
+                except Exception as ex:  # noqa
+                    rec.violation('resolve-raised', self.witness(op=op, probe=ct, path='direct-reentrant',
+                                                                 exc=repr(ex)))
 
         def both(f_real, f_model):
             nonlocal real, want
+            ReKey.hook = resolve_inside if re_entrant else None
             try:
                 real = ('ok', f_real())
             except KeyError:
                 real = ('KeyError', None)
             except Exception as ex:  # noqa
                 real = ('exc', repr(ex))
+            finally:
+                ReKey.hook = None
             try:
                 want = ('ok', f_model())
             except KeyError:
@@ -641,20 +677,21 @@ class History:
         before_items = [(k, id(v)) for k, v in model.items()]
         if kind == 'set':
             h = self.new_handler(op[3])
-            both(lambda: obj.__setitem__(op[2], h), lambda: model.__setitem__(op[2], h))
+            both(lambda: obj.__setitem__(rk(op[2]), h), lambda: model.__setitem__(op[2], h))
         elif kind == 'del':
-            both(lambda: obj.__delitem__(op[2]), lambda: model.__delitem__(op[2]))
+            both(lambda: obj.__delitem__(rk(op[2])), lambda: model.__delitem__(op[2]))
         elif kind == 'update':
             d = {k: self.new_handler(op[3]) for k in op[2]}
+            dr = {rk(k): v for k, v in d.items()}
             if op[4] == 'pairs':
-                both(lambda: obj.update(list(d.items())), lambda: model.update(d))
+                both(lambda: obj.update(list(dr.items())), lambda: model.update(d))
             else:
-                both(lambda: obj.update(d), lambda: model.update(d))
+                both(lambda: obj.update(dr), lambda: model.update(d))
         elif kind == 'pop':
             if op[3]:
-                both(lambda: obj.pop(op[2], 'dflt'), lambda: model.pop(op[2], 'dflt'))
+                both(lambda: obj.pop(rk(op[2]), 'dflt'), lambda: model.pop(op[2], 'dflt'))
             else:
-                both(lambda: obj.pop(op[2]), lambda: model.pop(op[2]))
+                both(lambda: obj.pop(rk(op[2])), lambda: model.pop(op[2]))
         elif kind == 'popitem':
             try:
                 k, v = obj.popitem()
@@ -669,7 +706,7 @@ class History:
                 want = ('KeyError', None) if not model else ('ok', None)
         elif kind == 'setdefault':
             h = self.new_handler(op[3])
-            both(lambda: obj.setdefault(op[2], h), lambda: model.setdefault(op[2], h))
+            both(lambda: obj.setdefault(rk(op[2]), h), lambda: model.setdefault(op[2], h))
         elif kind == 'clear':
             both(obj.clear, model.clear)
         elif kind == 'ior':
@@ -742,11 +779,11 @@ class History:
         lives = [lv for lv in self.lives if not lv.dead]
         for li, live in enumerate(lives):
             for ct in self.probes:
-                want = M.resolve_model(live.model, ct, self.default)
-                if want is None:
-                    rec.count('res.undecidable')
-                    continue
-                wtag = tag_of(want)
+                allowed, cls = M.resolve_allowed(live.model, ct, self.default)
+                rec.count('res.cls.' + cls)
+                want = allowed[0]
+                wtag = tag_of(want) if cls != 'undecided' else 'any-current'
+                atags = [tag_of(a) for a in allowed]
                 key = ct
                 prev = live.prev_expect.get(key)
                 if prev is not None and prev != wtag:
@@ -783,7 +820,7 @@ class History:
                                                                       exc=repr(ex), mapping=li))
                         continue
                     rec.count('res.direct')
-                    if got is not want:
+                    if not any(got is a for a in allowed):
                         gtag = tag_of(got)
                         rec.violation('stale-or-wrong-handler',
                                       self.witness(step=step, probe=ct, path='direct-' + mode, got=gtag, want=wtag,
@@ -804,7 +841,7 @@ class History:
                     for side in ('req', 'resp'):
                         got = world.resolve_public(stack, side, live.obj, self.default, ct)
                         rec.count('res.%s-%s' % (stack, side))
-                        if got != wtag:
+                        if got not in atags:
                             rec.violation('stale-or-wrong-handler',
                                           self.witness(step=step, probe=ct, path='%s-%s' % (stack, side), got=got,
                                                        want=wtag, mapping=li, origin=live.origin,
@@ -881,9 +918,10 @@ class History:
 
 
 K3 = ['application/json', 'text/plain', 'text/*']
+BAD_KEY = 'msgpack'
 EX_INIT = [['application/json', False], ['text/plain', True]]
 EX_PROBES = [None, '*/*', 'application/json', 'application/json; charset=UTF-8', 'text/plain', 'text/html',
-             'image/png']
+             'image/png', BAD_KEY]
 EX_OPS = [
     ['set', -1, K3[0], False], ['set', -1, K3[1], True], ['set', -1, K3[2], False],
     ['del', -1, K3[0]], ['del', -1, K3[1]], ['del', -1, K3[2]],
@@ -898,6 +936,11 @@ EX_OPS = [
     ['copycopy', -1],
     ['default', 'text/plain'], ['default', 'text/html'],
     ['set', 0, K3[0], False], ['del', 0, K3[1]],
+    # a key that is not a type/subtype pair (settable without complaint)
+    ['set', -1, BAD_KEY, False], ['del', -1, BAD_KEY],
+    # resolutions issued from inside the mutating operation
+    ['set', -1, K3[0], False, 're'], ['set', -1, K3[2], True, 're'], ['del', -1, K3[1], 're'],
+    ['pop', -1, K3[0], False, 're'], ['update', -1, [K3[1], K3[2]], False, 'dict', 're'],
 ]
 ERRSER_ACCEPTS = ['application/json', 'text/plain', 'text/*;q=0.5, application/json;q=0.4', 'text/xml', 'image/png',
                   '*/*', 'text/plain;q=0, */*;q=0.1', 'application/xml;q=0.9, text/plain;q=0.9']
@@ -923,7 +966,8 @@ def exhaustive_histories(rec, world):
 R_KEYS = ['application/json', 'application/json; charset=utf-8', 'text/plain', 'text/*', 'text/html',
           'application/x-www-form-urlencoded', 'application/vnd.api+json', 'application/*', '*/*',
           'text/plain;format=flowed', 'image/png', 'application/xml']
-R_PROBES = [None, '', '*/*', 'application/json', 'application/json; charset=UTF-8', 'application/json;charset=utf-8',
+R_BAD_KEYS = ['msgpack', '', 'json', 'Text/Plain', 'a/b/c', 'text/plain;q=0.5', ' ']
+R_PROBES = ['msgpack', 'json', None, '', '*/*', 'application/json', 'application/json; charset=UTF-8', 'application/json;charset=utf-8',
             'text/plain', 'text/plain; format=flowed', 'text/plain;format=fixed', 'text/html', 'text/*', 'image/png',
             'image/*', 'application/vnd.api+json', 'application/yaml', 'garbage', 'text', 'application/json;q=0',
             'text/plain; charset="utf-8"', 'text/html, text/plain;q=0.5', 'application/*;q=0.5', 'application/xml',
@@ -934,6 +978,8 @@ R_DEFAULTS = ['application/json', 'text/plain', 'text/html', 'image/png', 'appli
 def gen_history(rng):
     nkeys = rng.choice([3, 4, 5, 6])
     keys = rng.sample(R_KEYS, nkeys)
+    if rng.random() < 0.3:
+        keys.append(rng.choice(R_BAD_KEYS))
     init = [[k, rng.random() < 0.4] for k in rng.sample(keys, rng.choice([0, 1, 2, 2, 3]))]
     default = rng.choice(R_DEFAULTS[:3] + keys[:2])
     probes = rng.sample(R_PROBES, 5) + [None, rng.choice(keys)]
@@ -967,6 +1013,9 @@ def gen_history(rng):
             ops.append(['copycopy', t])
         else:
             ops.append(['default', rng.choice(R_DEFAULTS + keys[:1])])
+    for op in ops:
+        if op[0] in ('set', 'del', 'update', 'pop', 'setdefault') and rng.random() < 0.15:
+            op.append('re')
     return init, default, probes, ops
 
 
@@ -987,10 +1036,10 @@ def run(rec):
     rec.rule = ('A: Accept headers = all 1..3-tuples over %d media-range atoms (11 ranges x q set) x 10 media types, '
                 'plus grammar-driven random headers (params, quoted params, q forms, OWS, duplicates, empty/invalid '
                 'members); non-trivial = at least two ranges match the media type (or the input is not grammar-valid); '
-                'distinct by (header, candidates).  B: all programs of the stated depth over 23 mapping operations '
-                '(exhaustive) plus random programs up to 20 ops over 12 keys; resolutions after every op for all live '
+                'distinct by (header, candidates).  B: all programs of the stated depth over %d mapping operations '
+                '(exhaustive; incl. a key that is not a type/subtype pair and resolutions issued from inside a mutating operation via the __hash__ of a key) plus random programs up to 20 ops over 12+7 keys; resolutions after every op for all live '
                 'mappings; non-trivial = at least one resolution whose designated handler changed; distinct by program'
-                % (len(R_BASE) * len(Q_SET[rec.tier])))
+                % (len(R_BASE) * len(Q_SET[rec.tier]), len(EX_OPS)))
     rec.assumptions = [
         'reference model vlib/models/c11_negotiation.py reads RFC 9110 12.4.2/12.5.1 and the quality() docstring correctly',
         'type/subtype compared exactly as documented ("match exactly"); mixed-case types are not judged',
@@ -998,8 +1047,6 @@ def run(rec):
         'a mapping with an exact key for the content type designates that key\'s handler',
         'inputs outside the grammar with no single obvious reading are only checked for documented error types',
     ]
-    # triage aid only: VERIF_ASSUME_KNOWN=key1,key2 treats proposed (not yet recorded) finding keys as recorded
-    rec.known_keys |= {k for k in os.environ.get('VERIF_ASSUME_KNOWN', '').split(',') if k}
     rng = rec.rng
     world = World()
     exhaustive_negotiation(rec)
@@ -1038,6 +1085,7 @@ def run(rec):
                     ('chg.set', 20), ('chg.del', 20), ('chg.update', 10), ('chg.pop', 10), ('chg.popitem', 10),
                     ('chg.setdefault', 5), ('chg.clear', 10), ('chg.default', 10), ('chg.ior', 5),
                     ('op.copy', 10), ('op.copycopy', 5), ('op.or', 5),
+                    ('res.cls.bad-key', 200), ('res.cls.undecided', 5), ('res.reentrant', 500),
                     ('mon.mapping_state', 500), ('mon.errser', 100), ('errser.handler', 20), ('errser.builtin', 20),
                     ('errser.none_acceptable', 5)]:
         rec.floor(name, n)
